@@ -23,6 +23,20 @@ import (
 // generator dimension on top of it: a case names the slots of the message that are emptied after
 // the model message was turned into the library value.
 
+// Round 10: the same for the address of an IPSECKEY / AMTRELAY gateway of type IPv4 or IPv6 (GatewayAddr
+// nil): the packer writes nothing for it, the length methods count 4 / 16 octets by the gateway type - an
+// over-estimate, which the first clause permits (these types are outside the exactness sub-domain).
+
+// gatewayAddrSlot: does the slot name the address of a gateway of type IPv4 / IPv6?
+func gatewayAddrSlot(m *wm.Msg, s blankSlot) bool {
+	recs := modelSec(m, s.Sec)
+	if s.Field < 0 || s.Idx < 0 || s.Idx >= len(recs) || s.Field >= len(recs[s.Idx].Fields) {
+		return false
+	}
+	f := recs[s.Idx].Fields[s.Field]
+	return f.K == wm.GW && (f.U == 1 || f.U == 2)
+}
+
 // blankSlot names one item of a message.
 type blankSlot struct {
 	Sec   int // 0 question, 1 answer, 2 authority, 3 additional
@@ -138,6 +152,11 @@ func applyBlank(x *dns.Msg, m *wm.Msg, slots []blankSlot) (names, zeroed int) {
 					f.SetString("")
 					names++
 				}
+				// round 10: a gateway of type IPv4 / IPv6 whose address was never filled in (GatewayAddr nil)
+				if f := v.FieldByName("GatewayAddr"); (r.Fields[s.Field].U == 1 || r.Fields[s.Field].U == 2) && f.IsValid() && f.Kind() == reflect.Slice && f.Len() > 0 && f.CanSet() {
+					f.Set(reflect.Zero(f.Type()))
+					names++
+				}
 			}
 		}
 	}
@@ -176,7 +195,7 @@ func drawBlank(t *rapid.T, m *wm.Msg) (slots []blankSlot, namesTouched bool) {
 					rnames = append(rnames, blankSlot{sec, i, k})
 				case sp.K == wm.Names && len(r.Fields[k].NL) > 0:
 					rnames = append(rnames, blankSlot{sec, i, k})
-				case sp.K == wm.GW && r.Fields[k].U == 3:
+				case sp.K == wm.GW && r.Fields[k].U >= 1 && r.Fields[k].U <= 3:
 					rnames = append(rnames, blankSlot{sec, i, k})
 				}
 			}
